@@ -16,13 +16,13 @@
    Parts: (1) timestamps c07_ts_*; (2) interleave queue c07_queue_*;
    (3) remuxer c07_av2rtmp_*; (4) reordering c07_reorder (C12 instantiated) and
    the RTSP video composition c07_rtsp_video_partial; (5) GB28181
-   c07_ps_frames_partial; (6) customize c07_customize.  What is NOT linked by a
+   c07_ps_frame_nals, c07_ps_frames; (6) customize c07_customize.  What is NOT linked by a
    theorem is said at each _partial. *)
 From Lal Require Import Common.LBytes Common.Res
   Codec.CodecNalFraming Codec.CodecNalFramingProofs Codec.CodecAvcSeqHeader Codec.CodecHevcSeqHeader Codec.CodecAac
   Remux.RemuxAv2Rtmp Remux.RemuxAvQueue Remux.RemuxAv2RtmpProofs Remux.RemuxAvQueueProofs Remux.RemuxTsProofs
   Remux.RemuxRtspIngestProofs.
-From Lal Require Net.NetPs Remux.RemuxPsIngestProofs Remux.RemuxPsIngest.
+From Lal Require Net.NetPs Remux.RemuxPsIngestProofs Remux.RemuxPsPesProofs Remux.RemuxPsIngest.
 From Lal Require Rtp.RtpPacker Rtp.RtpUnpacker Rtp.RtpReorder Rtp.RtpFrames Rtp.RtpReorderAbs Rtp.RtpStreamProofs
   Rtp.RtpRoundtripProofs Net.NetUnpack Codec.CodecAvcSeqHeaderProofs.
 Open Scope N_scope.
@@ -247,23 +247,44 @@ Print Assumptions c07_hevc_single_types_pinned_refuted.
    send) is split by iterateNaluByStartCode into its NAL units, each once, in
    order, start code included, stamped dts/90, pts/90 - after the "wait for
    parameter sets" gate (units before the first SPS/PPS (VPS) are dropped).
-   PARTIAL: the reassembly of an access unit from one or more PES packets
-   (PTS on the first / on all / none) and the one-frame delay are modelled
-   (Net/NetPs.v parse_av_stream) and compared on the python muxer's packings
-   (c07.ps, c07.e2e_ps), not stated as a theorem; the remuxer behind it is (3)
-   with Annex-B / ADTS framing. *)
+   This is what flush_all in c07_ps_frames below does with every reassembled
+   frame; the remuxer behind it is (3) with Annex-B / ADTS framing. *)
 Theorem c07_ps_start_code_models_agree : forall nalu start,
   NetPs.iterate_nalu_start_code nalu start = CodecNalFraming.iterate_nalu_start_code nalu start.
 Proof. exact RemuxPsIngestProofs.iterate_nalu_start_code_agree. Qed.
 Print Assumptions c07_ps_start_code_models_agree.
 
-Theorem c07_ps_frames_partial : forall vpt pts dts wait nals, ((vpt =? 96) || (vpt =? 98))%Z = true ->
+Theorem c07_ps_frame_nals : forall vpt pts dts wait nals, ((vpt =? 96) || (vpt =? 98))%Z = true ->
   nals <> [] -> Forall nal_wf nals ->
   NetPs.iterate_nalu_by_start_code true (RemuxPsIngestProofs.join4 nals) vpt pts dts wait =
   Ok (fst (RemuxPsIngestProofs.gate vpt wait nals),
       map (RemuxPsIngestProofs.ev_of vpt pts dts) (snd (RemuxPsIngestProofs.gate vpt wait nals))).
 Proof. exact RemuxPsIngestProofs.iterate_nalu_by_start_code_spec. Qed.
-Print Assumptions c07_ps_frames_partial.
+Print Assumptions c07_ps_frame_nals.
+
+(* reassembly: the buffer holds any number of whole video PES packets written
+   by the reference writer (PTS on some of them: first of each frame, all, ...;
+   a packet without PTS continues the running frame).  FeedRtpBody's loop
+   consumes them all; every frame whose successor has started is handed to
+   iterateNaluByStartCode exactly once, in order, stamped with its own PTS; the
+   last frame stays buffered (lal flushes a frame only when the next one
+   starts - also at the end of a stream).
+   PARTIAL (what is not covered by a theorem): pack / system headers and the
+   program stream map between the PES packets, audio PES packets interleaved
+   with video ones, RTP boundaries that fall inside a PES packet, streams
+   without any PTS (rtp-timestamp mode) - all modelled in Net/NetPs.v and
+   compared on the python muxer's packings (c07.ps, c07.e2e_ps). *)
+Theorem c07_ps_frames : forall vpt l st rtpts acc fuel cur,
+  Forall RemuxPsPesProofs.pes_ok l -> RemuxPsPesProofs.none_ok (fst cur) l ->
+  NetPs.ps_vpt st = vpt -> NetPs.ps_pre_vpts st = fst cur -> NetPs.ps_vbuf st = snd cur ->
+  NetPs.ps_buf st = RemuxPsPesProofs.pes_bytes l -> (length l < fuel)%nat ->
+  forall w evs, RemuxPsPesProofs.flush_all vpt (NetPs.ps_wait_sps st) (fst (RemuxPsPesProofs.regroup cur l)) = Ok (w, evs) ->
+  exists st', NetPs.feed_body_loop true fuel st rtpts acc = Ok (false, st', acc ++ evs) /\
+              NetPs.ps_buf st' = [] /\ NetPs.ps_vpt st' = vpt /\
+              NetPs.ps_pre_vpts st' = fst (snd (RemuxPsPesProofs.regroup cur l)) /\
+              NetPs.ps_vbuf st' = snd (snd (RemuxPsPesProofs.regroup cur l)) /\ NetPs.ps_wait_sps st' = w.
+Proof. exact RemuxPsPesProofs.video_pes_run. Qed.
+Print Assumptions c07_ps_frames.
 
 (* ======================================================================== *)
 (* (6) customize pub API: the same remuxer, nothing in between; after Dispose
